@@ -25,8 +25,6 @@ package specs
 //@ assigns nothing
 //@ ensures result != nil
 
-//@ func time.(Time).Unix
-//@ pure
 
 // ---- blst (cgo): assumed not to panic and not to touch Go-visible memory ---------------
 //@ func github.com/supranational/blst/bindings/go.*
@@ -52,4 +50,74 @@ package specs
 //@ requires[room] len(b) >= 2
 //@ pure
 //@ func bytes.Compare
+//@ pure
+
+// ---- sync: lock ghost state (re-entrancy of the current goroutine only) ---------------------
+//@ ghost wheld(m *sync.RWMutex) int
+//@ ghost rheld(m *sync.RWMutex) int
+//@ ghost mheld(m *sync.Mutex) int
+
+//@ func sync.(*RWMutex).Lock
+//@ requires[not-held-by-this-goroutine] wheld(rw) == 0 && rheld(rw) == 0
+//@ assigns wheld(rw)
+//@ ensures wheld(rw) == 1
+//@ func sync.(*RWMutex).Unlock
+//@ requires[write-locked] wheld(rw) == 1
+//@ assigns wheld(rw)
+//@ ensures wheld(rw) == 0
+//@ func sync.(*RWMutex).RLock
+//@ requires[no-write-lock-held-by-this-goroutine] wheld(rw) == 0
+//@ assigns rheld(rw)
+//@ ensures rheld(rw) == old(rheld(rw))+1
+//@ func sync.(*RWMutex).RUnlock
+//@ requires[read-locked] rheld(rw) > 0
+//@ assigns rheld(rw)
+//@ ensures rheld(rw) == old(rheld(rw))-1
+//@ func sync.(*Mutex).Lock
+//@ requires[not-held-by-this-goroutine] mheld(m) == 0
+//@ assigns mheld(m)
+//@ ensures mheld(m) == 1
+//@ func sync.(*Mutex).Unlock
+//@ requires[locked] mheld(m) == 1
+//@ assigns mheld(m)
+//@ ensures mheld(m) == 0
+
+// ---- time -------------------------------------------------------------------------------------
+//@ ghost lastNowUnix() int64
+//@ func time.Now
+//@ assigns nothing
+// Unix seconds of a time value; the most recent reading is kept in ghost state. The clock is
+// assumed not to be set before 1970.
+//@ func time.(Time).Unix
+//@ assigns lastNowUnix()
+//@ records lastNowUnix() == result
+//@ ensures result >= 0
+//@ func time.(Duration).Seconds
+//@ pure
+//@ ensures d > 0 ==> result >= 0.0 && result <= 9300000000.0
+
+// ---- net / multiaddr ------------------------------------------------------------------------------
+//@ spec ipString(ip net.IP) string
+//@ spec ipOf(addr multiaddr.Multiaddr) string
+//@ spec toIPFails(addr multiaddr.Multiaddr) bool
+//@ func github.com/multiformats/go-multiaddr/net.ToIP
+//@ assigns nothing
+//@ ensures result1 == nil ==> ipString(result0) == ipOf(addr)
+//@ ensures (result1 != nil) == toIPFails(addr)
+//@ func net.(IP).String
+//@ pure
+//@ ensures result == ipString(ip)
+//@ func net.ParseIP
+//@ assigns nothing
+
+// ---- libp2p ---------------------------------------------------------------------------------------
+//@ iface github.com/libp2p/go-libp2p/core/network.ConnMultiaddrs.RemoteMultiaddr
+//@ pure
+//@ func sync.(*WaitGroup).Done
+//@ assigns nothing
+//@ func sync.(*WaitGroup).Add
+//@ assigns nothing
+//@ func sync.(*WaitGroup).Wait
+//@ assigns nothing
+//@ iface context.Context.Done
 //@ pure
